@@ -118,6 +118,9 @@ Definition bind_func (creds : list str) (login dn pw : str) : bool * str :=
 
 Inductive lreq :=
 | LBind (ver : Z) (dn pw : str)       (* simple bind: version, name as sent, password *)
+| LBindShort (ver : Z)                 (* bind request with fewer than 3 elements *)
+| LBindBadName (ver : Z)               (* name element is not a universal primitive octet string *)
+| LBindOther (ver : Z) (dn : str)      (* authentication choice is not [context 0] primitive (e.g. SASL) *)
 | LOp (tag : N).                       (* any request the catch-all answers: application tag *)
 
 (* request types as recorded in the event (ldap.request-type); 0 = field absent *)
@@ -131,17 +134,28 @@ Definition lreply := option (N * N).
 
 Definition is_login (login : str) : bool := match login with [] => false | _ => true end.
 
+(* bind.go handle, well-formed simple bind, in the order of the code: the name is evaluated and
+   recorded, the password is recorded, THEN an old protocol version is refused, then bindFunc *)
 Definition ldap_bind (creds : list str) (login : str) (ver : Z) (dn0 pw : str)
   : str * lreply * levent :=
-  if ver <? 2 then (login, Some (1%N, RES_PROTOCOL), mkLE T_BIND None None)
+  let dn := norm_dn dn0 in
+  let base := match pw, dn with
+              | [], _ :: _ => RES_UNWILLING      (* name without password *)
+              | _, _ => RES_INVALID_CRED
+              end in
+  let ev := mkLE T_BIND (Some dn) (Some pw) in
+  if ver <? 2 then (login, Some (1%N, RES_PROTOCOL), ev)
   else
-    let dn := norm_dn dn0 in
-    let base := match pw, dn with
-                | [], _ :: _ => RES_UNWILLING      (* name without password *)
-                | _, _ => RES_INVALID_CRED
-                end in
     let '(ok, login') := bind_func creds login dn pw in
-    (login', Some (1%N, if ok then RES_SUCCESS else base), mkLE T_BIND (Some dn) (Some pw)).
+    (login', Some (1%N, if ok then RES_SUCCESS else base), ev).
+
+(* bind.go returns nil (request-type "bind" already recorded) when the request has fewer than
+   3 elements, when the name is not an octet string (both before the name is recorded) or when
+   the authentication choice is not the simple one (after the name, before the password) - all
+   of them BEFORE the version check.  The catch-all then answers: application tag 0 (the bind
+   request's own tag, its switch has no case for it), success iff logged in. *)
+Definition ldap_bind_fallthrough (login : str) (user : option str) : str * lreply * levent :=
+  (login, Some (0%N, if is_login login then RES_SUCCESS else RES_UNWILLING), mkLE T_BIND user None).
 
 (* catchall.go *)
 Definition ldap_catchall (login : str) (tag : N) : lreply * levent :=
@@ -158,6 +172,8 @@ Definition ldap_catchall (login : str) (tag : N) : lreply * levent :=
 Definition ldap_step (creds : list str) (login : str) (r : lreq) : str * lreply * levent :=
   match r with
   | LBind ver dn pw => ldap_bind creds login ver dn pw
+  | LBindShort _ | LBindBadName _ => ldap_bind_fallthrough login None
+  | LBindOther _ dn => ldap_bind_fallthrough login (Some (norm_dn dn))
   | LOp tag => let '(rp, ev) := ldap_catchall login tag in (login, rp, ev)
   end.
 
